@@ -256,7 +256,11 @@ def run(ctx):
                    "EPIPE / EOF behind it (requests that cross the array end once and several times); every call "
                    "that takes a length with n = used-1, used, used+1, 2*used+3, -1 (replay side: relative to the "
                    "replayable bytes) at every wrap position and fill level, two-buffer calls in both directions "
-                   "between the same buffers; all "
+                   "between the same buffers; OUT-PARAMETERS: *ndropped is poisoned (0x5a5a5a5a) before EVERY call and "
+                   "reported, incl. the zero-length calls and the calls refused with EINVAL (op `refused K`: NULL "
+                   "source, negative length, invalid descriptor, src == dst, write_line(NULL)) directly behind a "
+                   "write that dropped bytes, at every wrap position / fill / mode, and every writing call with a "
+                   "NULL out-parameter (`nullnd 1`); all "
                    "sequences of length <= 4 over a 9-op alphabet on a min=2,max=5 buffer per mode; every public "
                    "operation with boundary arguments (lines -1/0/1/many, lengths around every line length, "
                    "descriptor capacities 0.., short reads 0..request, EOF/EAGAIN, EINTR before every read/write) x "
@@ -546,6 +550,16 @@ def core_ops():
             for eof in (0, 1):
                 ops.append(["wfd %d %s %d" % (ln, av, eof)])
     ops += [["wfd 0 7879 0"], ["wfd -2 7879 0"]]
+    # OUT-PARAMETERS on every early-return path: the calls that store nothing (zero length, refused with
+    # EINVAL before the buffer is looked at) must still SET *ndropped (the harness poisons it before every
+    # call); directly behind a write that really dropped bytes (what a caller re-using its variable sees);
+    # and every writing call with NULL for the out-parameter (`nullnd 1`: "if not NULL")
+    ops += [["write -"]] + [["refused %d" % k] for k in range(7)]
+    ops += [["write 78797a7b7c7d", z] for z in ("write -", "wfd 0 7879 0", "wfd -2 7879 0", "wfd 3 - 1", "refused 0",
+                                                 "refused 1", "refused 2", "refused 3", "refused 4", "refused 6")]
+    ops += [["nullnd 1", o, "nullnd 0"] for o in ("write -", "write 78790a7a770a", "wline -", "wline 7879797979",
+                                                  "wfd -1 780a797a7b 0", "wfd 0 7879 0", "wfd -2 7879 0", "wfd 3 - 1",
+                                                  "refused 0", "refused 1", "refused 2", "refused 3", "refused 4", "refused 6")]
     # interrupted system calls at every chunk of the descriptor calls: must be invisible
     ops += [["eintr 1", "wfd -1 780a79 0"], ["eintr 3", "wfd 5 780a797a7b 1"], ["eintr 2", "wfd 5 78 0"],
             ["eintr 1", "rfd -1 9"], ["eintr 3", "rfd 9 2"], ["eintr 2", "pfd -1 9"], ["eintr 2", "yfd -1 9"],
@@ -641,6 +655,10 @@ def pair_sweep(meta, thin=1):
                                 if n % thin:
                                     continue
                                 out.append(pre + ["%s %d" % (k, ln), "read 9", "replay 9", "sel 1", "read 9", "replay 9"])
+                            if mode == 2:
+                                # NULL for the out-parameter: accepted on every path (refused, zero length, drop)
+                                out.append(pre + ["nullnd 1", "%s -2" % k, "%s 0" % k, "%s -1" % k, "nullnd 0",
+                                                  "read 9", "replay 9", "sel 1", "read 9", "replay 9"])
     return out
 
 
